@@ -87,7 +87,11 @@ func (r *Run) varKeyOf(res int, h http.Header) string {
 }
 
 func (r *Run) etagFor(res int, varKey, mode string) string {
-	t := fmt.Sprintf(`"r%dv%d-%s"`, res, r.resVer[res], varKey)
+	return r.etagForVer(res, r.resVer[res], varKey, mode)
+}
+
+func (r *Run) etagForVer(res, ver int, varKey, mode string) string {
+	t := fmt.Sprintf(`"r%dv%d-%s"`, res, ver, varKey)
 	if mode == "weak" {
 		return "W/" + t
 	}
@@ -149,6 +153,7 @@ type wire struct {
 	ctx     context.Context
 	sid     int
 	or      *OResp
+	eofErr  error // what a premature end of the stream looks like to the reader when no HTTP/1 body reader sits in between
 }
 
 func (w *wire) Read(p []byte) (int, error) {
@@ -185,6 +190,9 @@ func (w *wire) Read(p []byte) (int, error) {
 		}
 		if w.fault == "eof" {
 			w.r.fired("net.premature-eof")
+			if w.eofErr != nil {
+				return 0, w.eofErr
+			}
 		}
 		return 0, io.EOF
 	}
@@ -265,6 +273,9 @@ func (o *originRT) RoundTrip(req *http.Request) (*http.Response, error) {
 			r.resVer[res]++
 			r.resLM[res] = r.Sim.Now().Truncate(time.Second)
 		}
+		// the origin looks at the resource when the request arrives; what it then decides (validators, 304 or not)
+		// travels back after the scripted latency, whatever happens to the resource in the meantime
+		call.VerAt, call.LMAt = r.resVer[res], r.resLM[res]
 	}
 	r.mu.Unlock()
 	call.SeqStart = r.Sim.Event(g, "up.start", fmt.Sprintf("#%d %s %s inm=%q ims=%q cc=%q res=%d plan=%d", call.ID, req.Method, req.URL, req.Header.Get("If-None-Match"), req.Header.Get("If-Modified-Since"), req.Header.Get("Cache-Control"), res, planIdx))
@@ -354,10 +365,10 @@ func (r *Run) compose(g *kit.Gor, call *UpCall, req *http.Request, res, planIdx 
 	varKey := r.varKeyOf(res, req.Header)
 	etag := ""
 	if plan.ETag != "" {
-		etag = r.etagFor(res, varKey, plan.ETag)
+		etag = r.etagForVer(res, call.VerAt, varKey, plan.ETag)
 	}
-	lm := r.lmFor(res)
-	ver := r.resVer[res]
+	lm := call.LMAt
+	ver := call.VerAt
 	r.mu.Unlock()
 
 	now := r.Sim.Now()
@@ -473,7 +484,8 @@ func (r *Run) compose(g *kit.Gor, call *UpCall, req *http.Request, res, planIdx 
 		body = makeBody(sid, plan.BodyLen, plan.BodyClass)
 	}
 	or := &OResp{SID: sid, Call: call, Res: res, PlanIdx: planIdx, Plan: plan, Req: call.Req, Status: status, Body: body, Is304: is304, Version: ver, VarKey: varKey}
-	or.Complete = plan.Fault == "" || len(body) == 0
+	// (an empty body still has framing that can be cut when it is chunked: the last-chunk line and the trailers)
+	or.Complete = plan.Fault == "" || (len(body) == 0 && plan.Framing != "chunked")
 
 	framing := plan.Framing
 	if framing == "h2" || framing == "h2nolen" {
@@ -499,6 +511,10 @@ func (r *Run) compose(g *kit.Gor, call *UpCall, req *http.Request, res, planIdx 
 			or.Body, or.Complete = body, true
 		}
 		w := &wire{r: r, data: body, cuts: cutsOf(plan.Chunks, 0, len(body)), lat: time.Duration(plan.ChunkLatNs), fault: bodyFault(plan), faultAt: fat, first: true, done: req.Context().Done(), ctx: req.Context(), sid: sid, or: or}
+		if framing == "h2" {
+			// a stream that ends before its declared length is an error to an HTTP/2 client, as it is to HTTP/1's
+			w.eofErr = io.ErrUnexpectedEOF
+		}
 		if !bodyAllowed(req.Method, status) || len(body) == 0 {
 			or.Delivered = true
 		}
